@@ -34,8 +34,13 @@ def arbiter_roles(rep, idx, rule):
     for L in c.t.loops.values():
         if L.kind in ('enum', 'seq', 'range'):
             k = ('idx', L.id)
+            def to_port(d):
+                t = c.norm(d.target)
+                while t[0] in ('sub', 'attr'):
+                    t = t[1]
+                return t[0] != 'sig'            # a bus / initiator signal, not a local wire
             sids = {fr[1] for d in c.t.drivers for fr in d.dsl
-                    if fr[0] == 'case' and tuple(c.norm(p) for p in fr[2]) == (k,) and d.domain == 'comb'}
+                    if fr[0] == 'case' and tuple(c.norm(p) for p in fr[2]) == (k,) and d.domain == 'comb' and to_port(d)}
             if sids:
                 cands.append((L, sids))
     if len(cands) != 1 or len(cands[0][1]) != 1:
@@ -132,7 +137,7 @@ def run(rep, idx, tier):
     rep.explanation = EXPLANATION
     rep.assume("A1", "A2", "A3", "A4", "A6")
     rep.require("C08.1", 6)
-    rep.require("C08.2", 5)
+    rep.require("C08.2", 4)
     rep.require("C08.3", 3)
     rep.require("C08.4", 2)
     rep.require("C08.5", 5)
